@@ -59,6 +59,30 @@ pub fn ctl_access(ctl: u8) -> (Vec<Res>, Vec<Res>) {
 }
 
 impl Prog {
+    /// every name used in a dependency list or more than once, in this builder or nested ones
+    pub fn sensitive_names(&self, out: &mut std::collections::BTreeSet<String>) {
+        let mut seen = std::collections::BTreeSet::new();
+        for o in &self.ops {
+            match o {
+                Op::Add { deps, name, .. } => {
+                    out.extend(deps.iter().cloned());
+                    if !seen.insert(name.clone()) {
+                        out.insert(name.clone());
+                    }
+                }
+                Op::Batch { deps, name, inner, .. } => {
+                    out.extend(deps.iter().cloned());
+                    if !seen.insert(name.clone()) {
+                        out.insert(name.clone());
+                    }
+                    inner.sensitive_names(out);
+                }
+                Op::Nest { inner } => inner.sensitive_names(out),
+                _ => {}
+            }
+        }
+    }
+
     pub fn count_systems(&self) -> usize {
         self.ops
             .iter()
@@ -380,6 +404,9 @@ pub struct Variant {
     pub dup_lists: bool,
     /// insert redundant barriers (leading, repeated)
     pub extra_barriers: bool,
+    /// systems nobody depends on: registered under the empty name instead of their name and
+    /// vice versa (the plan must not depend on whether / how a system is named)
+    pub toggle_names: bool,
     pub seed: u64,
 }
 
@@ -398,6 +425,7 @@ impl Variant {
             shuffle_lists: false,
             dup_lists: false,
             extra_barriers: false,
+            toggle_names: false,
             seed: 0,
         }
     }
@@ -427,6 +455,7 @@ impl Variant {
             shuffle_lists: true,
             dup_lists: rng.gen_bool(0.5),
             extra_barriers: rng.gen_bool(0.5),
+            toggle_names: rng.gen_bool(0.5),
             seed: rng.gen(),
         }
     }
